@@ -7,7 +7,7 @@ import numpy as np
 
 from . import fmt
 from .dsl import Rule, Pred
-from .ev1 import memo_value, mode_of, strip_calls  # noqa: F401
+from .ev1 import memo_value, mode_of, strip_calls, shaped, np_scalar  # noqa: F401
 
 NB = {"moore": "Moore", "vn": "von Neumann", "unknown": "hexagonal"}
 
@@ -24,7 +24,7 @@ def line(c, with_mode=None):
 
 def make_ca(c):
     from .ev1 import with_layout
-    a = np.array(c["hist"], dtype=np.int64)
+    a = np.array(c["hist"], dtype=object if c["dtype"] == "uint64" else np.int64)
     if c.get("scale", 1) != 1:
         a = (a.astype(np.float64) / c["scale"]).astype(c["dtype"])
     else:
@@ -33,7 +33,8 @@ def make_ca(c):
 
 
 def scaled(arr, c):
-    return np.rint(np.asarray(arr, dtype=np.float64) * c.get("scale", 1)).astype(np.int64).tolist()
+    from .dsl import exact_rows
+    return exact_rows(arr, c.get("scale", 1))
 
 
 def calls_str(log):
@@ -54,19 +55,20 @@ def run_impl(c, memo=None, rule=None, pred_cls=Pred):
     import cellpylib as cpl
     ca = make_ca(c)
     snapshot = ca.tobytes()
-    rule = rule or Rule(c["rule"], c.get("scale", 1), clobber=bool(c.get("clobber")))
+    rule = rule or Rule(c["rule"], c.get("scale", 1), clobber=bool(c.get("clobber")), mixret=bool(c.get("mixret")))
     pred = None
     if "T" in c:
         ts = c["T"]
     else:
         pred = pred_cls(c["pred"], c.get("scale", 1))
-        ts = pred
+        ts = shaped(pred, c.get("callform"), 2)
     out = Run()
     out.rule, out.pred, out.ca = rule, pred, ca
     out.exc = None
     out.res = None
     try:
-        out.res = cpl.evolve2d(ca, timesteps=ts, apply_rule=rule, r=c["r"], neighbourhood=NB[c["nb"]],
+        out.res = cpl.evolve2d(ca, timesteps=np_scalar(ts, c.get("npform")) if "T" in c else ts,
+                               apply_rule=shaped(rule, c.get("callform")), r=np_scalar(c["r"], c.get("npform")), neighbourhood=NB[c["nb"]],
                                memoize=memo_value(memo if memo is not None else c["memo"]))
     except Exception as e:  # noqa
         out.exc = e
@@ -99,11 +101,12 @@ def ref_nbhd(g, r, vn, row, col):
 
 def _as_array(n):
     flat = [x for row in n for x in row]
+    big = any(x is not None and abs(x) >= 2 ** 53 for x in flat)       # keep such values exact (no float64 promotion)
     if any(x is None for x in flat):
-        data = np.array([[0 if x is None else x for x in row] for row in n])
+        data = np.array([[0 if x is None else x for x in row] for row in n], dtype=object if big else None)
         mask = np.array([[x is None for x in row] for row in n])
         return np.ma.masked_array(data, mask)
-    return np.array(n)
+    return np.array(n, dtype=object if big else None)
 
 
 def ref_evolve(c, steps):
